@@ -56,60 +56,536 @@ TRUSTED_EXTRA = ['Cython/gcc/libgomp compile the nogil prange bodies as written 
 
 # ----------------------------------------------------------------------------------------
 # translator: libdist.pyx / cluster/util.py -> lean/Model/Generated/FusedTypes.lean
+#
+# The generated file holds a NORMALISED structure of the source, so that renames, comments,
+# docstrings, message texts, declaration order, `while` counting loops, one `with nogil:` around
+# several pranges, `noexcept nogil` qualifiers and chains of private helpers do not change it,
+# while anything that changes what is computed (loop structure, index expressions, the arithmetic
+# type of a temporary, buffer options, validation predicates, extra statements) does.
+# The translator never raises: what it does not recognise becomes an `unrecognised: ...` entry,
+# which makes the Lean obligation fail readably.
 # ----------------------------------------------------------------------------------------
 
-def _parse_libdist(src):
-    """Extract the fused type lists, the typed-buffer signatures of the three kernels, the
-    accumulate statements and the public wrappers' call chains from libdist.pyx (plain text parse:
-    the file is Cython, not Python)."""
+_IDENT = r'[A-Za-z_]\w*'
+_WIDE = ('long', 'Py_ssize_t', 'ssize_t', 'size_t', 'double', 'long long', '')
+
+
+def _strip_comment(line):
+    out, q, i = [], None, 0
+    while i < len(line):
+        c = line[i]
+        if q:
+            out.append(c)
+            if c == '\\' and i + 1 < len(line):
+                out.append(line[i + 1])
+                i += 1
+            elif c == q:
+                q = None
+        elif c in '"\'':
+            q = c
+            out.append(c)
+        elif c == '#':
+            break
+        else:
+            out.append(c)
+        i += 1
+    return ''.join(out).rstrip()
+
+
+def _logical_lines(text):
+    """(indent, statement) with comments, blank lines and docstrings removed, continuation lines joined,
+    runs of blanks collapsed"""
+    text = re.sub(r'(?s)(^|\n)([ \t]*)[rRbBuU]?("""|\'\'\')(.*?)\3[ \t]*(?=\n|$)',
+                  lambda m: m.group(1), text)              # docstrings / bare triple-quoted strings
+    res, buf, depth, ind = [], '', 0, 0
+    for raw in text.split('\n'):
+        line = _strip_comment(raw)
+        if not line.strip() and depth == 0:
+            continue
+        if depth == 0:
+            ind = len(line) - len(line.lstrip(' \t'))
+            buf = line.strip()
+        else:
+            buf += ' ' + line.strip()
+        q = None
+        depth = 0
+        for c in buf:
+            if q:
+                if c == q:
+                    q = None
+            elif c in '"\'':
+                q = c
+            elif c in '([{':
+                depth += 1
+            elif c in ')]}':
+                depth -= 1
+        if buf.endswith('\\'):
+            buf = buf[:-1]
+            depth = max(depth, 1)
+            continue
+        if depth <= 0:
+            depth = 0
+            res.append((ind, re.sub(r'\s+', ' ', buf)))
+            buf = ''
+    return res
+
+
+def _split_top(s, sep):
+    parts, depth, cur, q, i = [], 0, '', None, 0
+    while i < len(s):
+        c = s[i]
+        if q:
+            cur += c
+            if c == q:
+                q = None
+        elif c in '"\'':
+            q = c
+            cur += c
+        elif c in '([{':
+            depth += 1
+            cur += c
+        elif c in ')]}':
+            depth -= 1
+            cur += c
+        elif depth == 0 and s.startswith(sep, i):
+            parts.append(cur)
+            cur = ''
+            i += len(sep)
+            continue
+        else:
+            cur += c
+        i += 1
+    parts.append(cur)
+    return parts
+
+
+def _subst(expr, env):
+    def rep(m):
+        if m.start() > 0 and expr[m.start() - 1] == '.':
+            return m.group(0)
+        return env.get(m.group(0), m.group(0))
+    out = re.sub(r'\b%s\b' % _IDENT, rep, expr)
+    out = re.sub(r'\s+(?=[^\w])|(?<=[^\w])\s+', '', out)      # blanks only survive between two words
+    return out
+
+
+def _flat(s):
+    while re.search(r'\[[^\[\]]*\]|\([^()]*\)', s):
+        s = re.sub(r'\[[^\[\]]*\]|\([^()]*\)', '', s)
+    return s
+
+
+def _function_block(src, name):
+    """(decorators, signature text, body text) of a top-level def"""
+    m = re.search(r'(?m)^((?:@[^\n]*\n)*)def\s+%s\s*\(' % re.escape(name), src)
+    if not m:
+        return None, None, None
+    decos = [d.strip()[1:] for d in m.group(1).split('\n') if d.strip()]
+    i, depth = m.end(), 1
+    while i < len(src) and depth:
+        depth += {'(': 1, '[': 1, ')': -1, ']': -1}.get(src[i], 0)
+        i += 1
+    sig = src[m.end():i - 1]
+    j = src.index(':', i) + 1
+    rest = src[j:]
+    e = re.search(r'(?m)^(?=[^\s#])', rest[1:] if rest.startswith('\n') else rest)
+    body = rest[:(e.start() + (1 if rest.startswith('\n') else 0))] if e else rest
+    return decos, sig, body
+
+
+def normalise_kernel(src, name):
+    """normalised description of one compiled kernel, as a list of tagged strings:
+      dec:<decorator>                   (sorted)
+      arg:<ROLE>:<element type>:<ndim>[:<other buffer options>]     ROLE = X, Y, OUT by position
+      guard:<asserted expression>       (sorted; messages dropped; parameters by role, scalars inlined)
+      loop:<depth>|<kind>|<bound>       in order; kind = prange (GIL released), range, or the spelled-out other form;
+                                        `v = 0; while v < n: ...; v = v + 1` is a range loop
+      write:<depth>|<condition>|<array>[<index>]<op><expression>    in order; loop variables are L0, L1 by nesting depth;
+                                        a typed temporary holding an arithmetic result appears as `<type>(...)`
+      ret:<returned expression>
+      unrecognised: ...                 every statement that was not understood"""
+    res = []
+    try:
+        decos, sig, body = _function_block(src, name)
+        if sig is None:
+            return ['unrecognised: no function %s' % name]
+        for d in sorted(re.sub(r'\s+', '', d).replace('cython.', '') for d in decos):
+            res.append('dec:' + d)
+        params = [p.strip() for p in _split_top(re.sub(r'\s+', ' ', sig), ',') if p.strip()]
+        roles = ['X', 'Y', 'OUT']
+        env, types = {}, {}
+        if len(params) != 3:
+            res.append('unrecognised: %d parameters' % len(params))
+        for role, p in zip(roles, params):
+            m = re.match(r'^np\.ndarray\[(.*)\]\s*(%s)$' % _IDENT, p)
+            if not m:
+                res.append('unrecognised: parameter ' + p)
+                continue
+            opts = [o.strip().replace(' ', '') for o in _split_top(m.group(1), ',')]
+            et = re.sub(r'^(?:np|numpy|cnp)\.(\w+?)_t$', r'\1', opts[0])
+            nd = [o.split('=')[1] for o in opts[1:] if o.startswith('ndim=')]
+            other = sorted(o for o in opts[1:] if not o.startswith('ndim='))
+            res.append('arg:%s:%s:%s%s' % (role, et, nd[0] if nd else '?', (':' + ','.join(other)) if other else ''))
+            env[m.group(2)] = role
+        guards, stack, pending_zero, loopvars = [], [], set(), set()
+
+        def close_to(indent):
+            while stack and stack[-1]['indent'] >= indent:
+                blk = stack.pop()
+                if blk['kind'] == 'while' and not blk['incremented']:
+                    res.append('unrecognised: while loop over %s without final increment' % blk['var'])
+
+        def temp(nm, rhs, typ):
+            r = _subst(rhs, env)
+            plain = re.match(r'^[\w.]+(\([\w., ]*\))?(\[[^\]]*\])?$', r) is not None
+            t = (typ or '').strip()
+            if plain and t in _WIDE:
+                env[nm] = r
+            elif t:
+                env[nm] = '<%s>(%s)' % (_subst(t, env).replace(' ', ''), r)
+            else:
+                env[nm] = '(%s)' % r
+
+        lines = _logical_lines(body)
+        prev_indent_else = {}
+        for indent, st in lines:
+            close_to(indent)
+            depth = sum(1 for b in stack if b['kind'] in ('for', 'while'))
+            nogil = any(b['kind'] == 'nogil' for b in stack)
+            cond = '&'.join(b['cond'] for b in stack if b['kind'] == 'if')
+            wh = next((b for b in reversed(stack) if b['kind'] == 'while'), None)
+            if wh is not None and wh.get('incremented'):
+                res.append('unrecognised: statement after the increment of a counting loop: ' + st)
+            m = re.match(r'^assert (.*)$', st)
+            if m:
+                parts = _split_top(m.group(1), ',')
+                expr = ','.join(parts[:-1]) if len(parts) > 1 and re.match(r'^\s*[rbuf]*["\']', parts[-1]) \
+                    else m.group(1)
+                for g in _split_top(expr, ' and '):
+                    g = _subst(g.strip(), env)
+                    guards.append((cond + '=>' + g) if cond else g)
+                continue
+            if st == 'with nogil:':
+                stack.append({'indent': indent, 'kind': 'nogil'})
+                continue
+            m = re.match(r'^if (.*):$', st)
+            if m:
+                c = _subst(m.group(1), env)
+                stack.append({'indent': indent, 'kind': 'if', 'cond': c})
+                prev_indent_else[indent] = c
+                continue
+            if st == 'else:' and indent in prev_indent_else:
+                stack.append({'indent': indent, 'kind': 'if', 'cond': 'not(%s)' % prev_indent_else.pop(indent)})
+                continue
+            m = re.match(r'^for (%s) in (prange|range)\((.*)\):$' % _IDENT, st)
+            if m:
+                args = [x.strip() for x in _split_top(m.group(3), ',')]
+                kind = m.group(2)
+                if kind == 'prange':
+                    kw = sorted(a.replace(' ', '') for a in args[1:])
+                    if kw == ['nogil=True'] and not nogil:
+                        kind = 'prange'
+                    elif kw == [] and nogil:
+                        kind = 'prange'
+                    else:
+                        kind = 'prange(%s%s)' % (','.join(kw), ';inside-nogil' if nogil else '')
+                elif len(args) != 1:
+                    kind = 'range/%d' % len(args)
+                res.append('loop:%d|%s|%s' % (depth, kind, _subst(args[0], env)))
+                env[m.group(1)] = 'L%d' % depth
+                loopvars.add(m.group(1))
+                pending_zero.discard(m.group(1))
+                stack.append({'indent': indent, 'kind': 'for', 'var': m.group(1)})
+                continue
+            m = re.match(r'^while (%s) ?< ?(.*):$' % _IDENT, st)
+            if m and m.group(1) in pending_zero:
+                pending_zero.discard(m.group(1))
+                res.append('loop:%d|range|%s' % (depth, _subst(m.group(2), env)))
+                env[m.group(1)] = 'L%d' % depth
+                loopvars.add(m.group(1))
+                stack.append({'indent': indent, 'kind': 'while', 'var': m.group(1), 'incremented': False})
+                continue
+            m = re.match(r'^cdef (.*)$', st)
+            if m:
+                decl = m.group(1)
+                first = _split_top(decl, ',')[0]
+                lhs0 = _split_top(first, '=')[0].strip()
+                tm = re.match(r'^(.*?)(%s)$' % _IDENT, lhs0)
+                typ = tm.group(1).strip() if tm else ''
+                ok = bool(tm)
+                for k, piece in enumerate(_split_top(decl, ',')):
+                    piece = piece.strip()
+                    if k == 0:
+                        piece = piece[len(typ):].strip()
+                    nm, _, rhs = [x.strip() for x in (piece.partition('='))]
+                    stars = len(nm) - len(nm.lstrip('*'))
+                    nm = nm.lstrip('* ')
+                    if not re.match(r'^%s$' % _IDENT, nm):
+                        ok = False
+                        break
+                    t = typ + '*' * stars
+                    types[nm] = t
+                    if rhs:
+                        if rhs == '0':
+                            pending_zero.add(nm)
+                            env.pop(nm, None)
+                        else:
+                            temp(nm, rhs, t)
+                if not ok:
+                    res.append('unrecognised: ' + st)
+                continue
+            m = re.match(r'^(%s) ?= ?(.*)$' % _IDENT, st)
+            if m and not st.startswith(('return ',)):
+                nm, rhs = m.group(1), m.group(2)
+                if wh is not None and nm == wh['var'] and rhs.replace(' ', '') in (nm + '+1', '1+' + nm):
+                    wh['incremented'] = True
+                    continue
+                if rhs.strip() == '0' and nm not in ('X', 'Y', 'OUT'):
+                    pending_zero.add(nm)
+                    env.pop(nm, None)
+                    continue
+                temp(nm, rhs, types.get(nm, ''))
+                continue
+            m = re.match(r'^(%s) ?\+= ?1$' % _IDENT, st)
+            if m and wh is not None and m.group(1) == wh['var']:
+                wh['incremented'] = True
+                continue
+            m = re.match(r'^(%s)\[(.*?)\] ?(\+=|-=|\*=|/=|//=|=) ?(.*)$' % _IDENT, st)
+            if m:
+                res.append('write:%d|%s|%s[%s]%s%s' % (depth, cond, _subst(m.group(1), env), _subst(m.group(2), env),
+                                                       m.group(3), _subst(m.group(4), env)))
+                continue
+            m = re.match(r'^return (.*)$', st)
+            if m:
+                res.append('ret:' + _subst(m.group(1), env))
+                continue
+            res.append('unrecognised: ' + st)
+        close_to(0)
+        for z in sorted(pending_zero - loopvars):
+            res.append('unrecognised: %s = 0 (never used as a counter)' % z)
+        res += ['guard:' + g for g in sorted(set(guards))]
+    except Exception as e:  # noqa  (never raise: the obligation then fails readably)
+        res.append('unrecognised: translator error %s: %s' % (type(e).__name__, str(e)[:80]))
+    order = {'dec': 0, 'arg': 1, 'guard': 2, 'loop': 3, 'write': 3, 'ret': 4}
+    return sorted(res, key=lambda s: order.get(s.split(':', 1)[0], 5)) if res else res
+
+
+# ---- python-level part: what a public wrapper does before / around the kernel call ----------
+
+class _Names(ast.NodeTransformer):
+    def __init__(self, env):
+        self.env = env
+
+    def visit_Name(self, node):
+        v = self.env.get(node.id)
+        if v is None:
+            return node
+        return ast.parse(v, mode='eval').body
+
+
+def _expr(node, env):
+    node = _Names(env).visit(ast.parse(ast.unparse(node), mode='eval').body)
+    return ast.unparse(node)
+
+
+def _plain_functions(src):
+    """name -> ast.FunctionDef for the top-level `def`s that are plain Python (no typed buffers)"""
+    res = {}
+    for m in re.finditer(r'(?m)^def\s+(%s)\s*\(' % _IDENT, src):
+        decos, sig, body = _function_block(src, m.group(1))
+        if sig is None or 'np.ndarray[' in sig:
+            continue
+        try:
+            tree = ast.parse('def %s(%s):%s' % (m.group(1), sig, body if body.strip() else ' pass'))
+            res[m.group(1)] = tree.body[0]
+        except SyntaxError:
+            pass
+    return res
+
+
+def trace_wrapper(src, name, kernels):
+    """ordered events of a public wrapper, helper calls resolved transitively (any helper names), messages dropped:
+      raise|<exception>[%raw:<expr>]|<path condition>|<condition>     a validation predicate
+      call|<kernel>(<arguments>)                                      the compiled kernel is entered
+      return|<expression>
+    Re-bindings of the arguments are followed symbolically and show up in the call / return expressions.
+    `%raw:e` marks a message built as `"...%s" % e.shape` (a bare tuple operand: raises TypeError for ndim != 1)."""
+    events = []
+    try:
+        funcs = _plain_functions(src)
+        if name not in funcs:
+            return ['unrecognised: no plain function %s' % name]
+
+        def exc_name(node):
+            f = node.func if isinstance(node, ast.Call) else node
+            nm = f.attr if isinstance(f, ast.Attribute) else getattr(f, 'id', ast.unparse(f))
+            raw = ''
+            if isinstance(node, ast.Call) and node.args:
+                a = node.args[0]
+                if isinstance(a, ast.BinOp) and isinstance(a.op, ast.Mod):
+                    r = a.right
+                    safe = isinstance(r, ast.Tuple) or (isinstance(r, ast.Call) and getattr(r.func, 'id', '') in
+                                                        ('str', 'repr', 'int', 'float', 'len'))
+                    if not safe and ast.unparse(r).endswith('.shape'):     # a tuple-valued operand
+                        raw = r
+            return nm, raw
+
+        def run(fn, argvals, path, depth):
+            """returns list of (path condition, value) the call may return (None value = falls off the end)"""
+            if depth > 8:
+                events.append('unrecognised: helper recursion too deep in ' + fn.name)
+                return []
+            params = [a.arg for a in fn.args.args]
+            env = dict(zip(params, argvals))
+            for a, d in zip(params[len(params) - len(fn.args.defaults):], fn.args.defaults):
+                env.setdefault(a, ast.unparse(d))
+            rets = []
+            block(fn.body, env, path, rets, depth, fn.name)
+            return rets
+
+        def conj(path, c):
+            return (path + ' and ' + c) if path else c
+
+        def call_value(node, env, path, depth):
+            """symbolic value of an expression that may be a call to a plain helper / kernel"""
+            if isinstance(node, ast.Call):
+                fname = node.func.id if isinstance(node.func, ast.Name) else None
+                target = env.get(fname, fname) if fname else None
+                args = [_expr(a, env) for a in node.args]
+                if target in kernels and not node.keywords:
+                    events.append('call|%s(%s)' % (target, ', '.join(args)))
+                    return '<result of %s>' % target
+                if target in funcs and not node.keywords:
+                    rets = run(funcs[target], args, path, depth + 1)
+                    vals = [(p, v) for p, v in rets if v is not None]
+                    if not vals:
+                        return 'None'
+                    if len(set(v for _, v in vals)) == 1:
+                        return vals[0][1]
+                    # conditional value: (A if c else B), the last alternative is the default
+                    out = vals[-1][1]
+                    for p, v in reversed(vals[:-1]):
+                        local = p[len(path):].lstrip() if path and p.startswith(path) else p
+                        local = local[4:] if local.startswith('and ') else local
+                        out = '(%s if %s else %s)' % (v, local, out)
+                    return out
+            return _expr(node, env)
+
+        def block(stmts, env, path, rets, depth, fname):
+            for k, st in enumerate(stmts):
+                if isinstance(st, ast.Expr) and isinstance(st.value, ast.Constant):
+                    continue
+                if isinstance(st, ast.Pass):
+                    continue
+                if isinstance(st, ast.Expr) and isinstance(st.value, ast.Call):
+                    call_value(st.value, env, path, depth)
+                    continue
+                if isinstance(st, ast.Raise) and st.exc is not None:
+                    nm, raw = exc_name(st.exc)
+                    events.append('raise|%s%s|%s|always' % (nm, ('%raw:' + _expr(raw, env)) if raw != '' else '', path))
+                    return 'stop'
+                if isinstance(st, ast.Return):
+                    rets.append((path, call_value(st.value, env, path, depth) if st.value is not None else 'None'))
+                    return 'stop'
+                if isinstance(st, ast.Assign) and len(st.targets) == 1:
+                    t = st.targets[0]
+                    if isinstance(t, ast.Name):
+                        # bindings are tracked symbolically: what an argument was replaced by shows up in the
+                        # kernel call and in the returned expression
+                        env[t.id] = call_value(st.value, env, path, depth)
+                        continue
+                    if isinstance(t, ast.Tuple) and all(isinstance(e, ast.Name) for e in t.elts) \
+                            and not isinstance(st.value, ast.Call):
+                        base = _expr(st.value, env)
+                        for i2, e in enumerate(t.elts):
+                            env[e.id] = '%s[%d]' % (base, i2)
+                        continue
+                if isinstance(st, ast.If):
+                    c = _expr(st.test, env)
+                    # `if c: raise E` is a validation predicate
+                    if len(st.body) == 1 and isinstance(st.body[0], ast.Raise) and not st.orelse \
+                            and st.body[0].exc is not None:
+                        nm, raw = exc_name(st.body[0].exc)
+                        events.append('raise|%s%s|%s|%s' % (nm, ('%raw:' + _expr(raw, env)) if raw != '' else '', path, c))
+                        continue
+                    env1, env2 = dict(env), dict(env)
+                    r1 = block(st.body, env1, conj(path, c), rets, depth, fname)
+                    r2 = block(st.orelse, env2, conj(path, 'not (%s)' % c), rets, depth, fname) if st.orelse else None
+                    if r1 == 'stop' and r2 == 'stop':
+                        return 'stop'
+                    if r1 == 'stop':          # the rest of the function runs only when c was false
+                        env.clear()
+                        env.update(env2)
+                        return block(stmts[k + 1:], env, conj(path, 'not (%s)' % c), rets, depth, fname)
+                    if r2 == 'stop':
+                        env.clear()
+                        env.update(env1)
+                        return block(stmts[k + 1:], env, conj(path, c), rets, depth, fname)
+                    for key in set(env1) | set(env2):
+                        a, b = env1.get(key), env2.get(key)
+                        env[key] = a if a == b else '(%s if %s else %s)' % (a, c, b)
+                    continue
+                events.append('unrecognised: %s in %s' % (ast.unparse(st).split('\n')[0][:80], fname))
+            return None
+
+        fn = funcs[name]
+        params = [a.arg for a in fn.args.args]
+        if len(params) != 3:
+            events.append('unrecognised: %s takes %d parameters' % (name, len(params)))
+        dflt = [ast.unparse(d) for d in fn.args.defaults]
+        if dflt != ['None']:
+            events.append('unrecognised: defaults of %s are %s' % (name, dflt))
+        rets = run(fn, ['X', 'Y', 'OUT'][:len(params)], '', 0)
+        for p, v in rets:
+            events.append('return|%s%s' % ((p + '|') if p else '', v))
+    except Exception as e:  # noqa
+        events.append('unrecognised: translator error %s: %s' % (type(e).__name__, str(e)[:80]))
+    return events
+
+
+def _parse_fused(src):
+    fused = {}
     lines = src.split('\n')
-    fused, i = {}, 0
+    i = 0
     while i < len(lines):
         m = re.match(r'^ctypedef\s+fused\s+(\w+)\s*:\s*$', lines[i])
         if m:
             name, members = m.group(1), []
             i += 1
             while i < len(lines) and (lines[i].startswith((' ', '\t')) or not lines[i].strip()):
-                t = lines[i].split('#')[0].strip()
+                t = _strip_comment(lines[i]).strip()
                 if t:
                     mm = re.match(r'^(?:np|numpy|cnp)\.(\w+?)_t$', t)
-                    members.append(mm.group(1) if mm else 'UNPARSED:' + t)
+                    members.append(mm.group(1) if mm else 'unrecognised: ' + t)
                 i += 1
             fused[name] = members
             continue
         i += 1
-    sigs = {}
-    for m in re.finditer(r'^def\s+(_\w+)\s*\(([^)]*)\)\s*:', src, re.M | re.S):
-        args = []
-        for am in re.finditer(r'np\.ndarray\[\s*([\w.]+)\s*,\s*ndim\s*=\s*(\d+)\s*\]\s*(\w+)', m.group(2)):
-            t = am.group(1)
-            tm = re.match(r'^(?:np|numpy|cnp)\.(\w+?)_t$', t)
-            args.append((am.group(3), tm.group(1) if tm else t, int(am.group(2))))
-        if args:
-            sigs[m.group(1)] = args
-    # body statements of each kernel that touch out[i]
-    bodies = {}
-    for k in sigs:
-        m = re.search(r'^def\s+%s\s*\(.*?(?=^def\s|\Z)' % re.escape(k), src, re.M | re.S)
-        stm = []
-        for ln in m.group(0).split('\n'):
-            s = ln.split('#')[0].strip()
-            if re.match(r'^out\[i\]\s*(\+=|/=|=)', s) or s.startswith(('for ', 'if ', 'elif ', 'else')):
-                stm.append(re.sub(r'\s+', ' ', s))
-        bodies[k] = stm
-    wrappers = {}
-    for m in re.finditer(r'^def\s+([a-z]\w*)\s*\(\s*X\s*,\s*y\s*,\s*out\s*=\s*None\s*\)\s*:(.*?)(?=^def\s|\Z)', src,
-                         re.M | re.S):
-        body = re.sub(r'""".*?"""', '', m.group(2), flags=re.S)
-        calls = re.findall(r'(\w+)\s*\(\s*X\s*,\s*y\s*,\s*out\s*\)', body)
-        wrappers[m.group(1)] = calls
-    return fused, sigs, bodies, wrappers
+    return fused
+
+
+def _parse_externs(src):
+    """C functions declared in `cdef extern` blocks, qualifiers (`nogil`, `noexcept`) dropped"""
+    res = []
+    for m in re.finditer(r'(?m)^cdef extern from ([^\n:]*?)(?:\s+nogil)?\s*:\n((?:[ \t]+[^\n]*\n|\n)+)', src):
+        hdr = m.group(1).strip()
+        for ln in m.group(2).split('\n'):
+            s = _strip_comment(ln).strip()
+            if not s:
+                continue
+            s = re.sub(r'\b(noexcept|nogil)\b', '', s)
+            s = re.sub(r'\(\s*(\w[\w ]*?)\s+\w+\s*\)', r'(\1)', s)         # drop the parameter name
+            res.append('%s: %s' % (hdr, re.sub(r'\s+', ' ', s).strip()))
+    return sorted(res)
 
 
 def _parse_metric_map(src):
     """metric name -> function name returned by cluster.util._get_distance_method (ast)."""
-    tree = ast.parse(src)
     out = {}
+    try:
+        tree = ast.parse(src)
+    except SyntaxError as e:
+        return {'unrecognised': 'util.py does not parse: %s' % e}
     for node in ast.walk(tree):
         if isinstance(node, ast.FunctionDef) and node.name == '_get_distance_method':
             for n in ast.walk(node):
@@ -134,44 +610,85 @@ def _lean_list(xs, f=_lean_str):
     return '[' + ', '.join(f(x) for x in xs) + ']'
 
 
+KERNEL_NAMES = ('_euclidean', '_hamming', '_manhattan')
+WRAPPER_NAMES = ('euclidean', 'hamming', 'manhattan')
+
+
+def normalise_source(src, usrc):
+    fused = _parse_fused(src)
+    kernels = {k: normalise_kernel(src, k) for k in KERNEL_NAMES}
+    sigs = {}
+    for k, items in kernels.items():
+        sigs[k] = []
+        for it in items:
+            if it.startswith('arg:'):
+                f = it.split(':')
+                nm = {'X': 'X', 'Y': 'y', 'OUT': 'out'}[f[1]]
+                sigs[k].append((nm, f[2] + ((';' + f[4]) if len(f) > 4 else ''), int(f[3]) if f[3].isdigit() else 0))
+    traces = {w: trace_wrapper(src, w, KERNEL_NAMES) for w in WRAPPER_NAMES}
+    return {'fused': fused, 'kernels': kernels, 'sigs': sigs, 'traces': traces, 'externs': _parse_externs(src),
+            'metric': _parse_metric_map(usrc)}
+
+
 def translate(repo_dir, gen_dir):
-    p = os.path.join(repo_dir, 'enspara', 'geometry', 'libdist.pyx')
-    with open(p) as f:
-        src = f.read()
-    with open(os.path.join(repo_dir, 'enspara', 'cluster', 'util.py')) as f:
-        usrc = f.read()
-    fused, sigs, bodies, wrappers = _parse_libdist(src)
-    metric = _parse_metric_map(usrc)
+    notes = []
+    src = usrc = ''
+    try:
+        with open(os.path.join(repo_dir, 'enspara', 'geometry', 'libdist.pyx')) as f:
+            src = f.read()
+    except OSError as e:
+        notes.append('unrecognised: cannot read libdist.pyx: %s' % e)
+    try:
+        with open(os.path.join(repo_dir, 'enspara', 'cluster', 'util.py')) as f:
+            usrc = f.read()
+    except OSError as e:
+        notes.append('unrecognised: cannot read cluster/util.py: %s' % e)
+    try:
+        ns = normalise_source(src, usrc)
+    except Exception as e:  # noqa
+        ns = {'fused': {}, 'kernels': {}, 'sigs': {}, 'traces': {}, 'externs': [], 'metric': {}}
+        notes.append('unrecognised: translator error %s: %s' % (type(e).__name__, str(e)[:120]))
     sha = hashlib.sha256(src.encode()).hexdigest()
+    pair = lambda kv: '(%s, %s)' % (_lean_str(kv[0]), _lean_list(kv[1]))   # noqa
     L = []
     L.append('/-! GENERATED by harness/props/c13.py `translate` from enspara/geometry/libdist.pyx and')
     L.append('enspara/cluster/util.py (`_get_distance_method`) -- do not edit; regenerated on every run.')
-    L.append('Consumed by `Model/Dist.lean` (dtype dispatch of the model) and re-checked by')
-    L.append('`C13.generated_types_modelled` (a `decide` over these lists). -/')
+    L.append('A NORMALISED structure of the source (see `normalise_kernel` / `trace_wrapper` in c13.py): names,')
+    L.append('comments, docstrings, messages, declaration order and helper names do not appear in it.')
+    L.append('Consumed by `Model/Dist.lean` and re-checked by `C13.generated_types_modelled` and')
+    L.append('`C13.generated_kernels_as_modelled` (`decide` over these lists). -/')
     L.append('namespace Ens.Dist.Gen')
     L.append('')
     L.append('def sourceSha256 : String := %s' % _lean_str(sha))
     L.append('')
     L.append('/-- `ctypedef fused` blocks: name, member element types (numpy `<name>_t`) -/')
     L.append('def fused : List (String × List String) :=')
-    L.append('  ' + _lean_list(sorted(fused.items()), lambda kv: '(%s, %s)' % (_lean_str(kv[0]), _lean_list(kv[1]))))
+    L.append('  ' + _lean_list(sorted(ns['fused'].items()), pair))
     L.append('')
-    L.append('/-- typed-buffer arguments of the compiled kernels: kernel, [(argument, element type, ndim)] -/')
+    L.append('/-- typed-buffer arguments of the compiled kernels by position: kernel, [(role, element type[;options], ndim)] -/')
     L.append('def kernelSigs : List (String × List (String × String × Nat)) :=')
-    L.append('  ' + _lean_list(sorted(sigs.items()), lambda kv: '(%s, %s)' % (
+    L.append('  ' + _lean_list(sorted(ns['sigs'].items()), lambda kv: '(%s, %s)' % (
         _lean_str(kv[0]), _lean_list(kv[1], lambda a: '(%s, %s, %d)' % (_lean_str(a[0]), _lean_str(a[1]), a[2])))))
     L.append('')
-    L.append('/-- loop / `out[i]` statements of each kernel body, in source order -/')
-    L.append('def kernelBodies : List (String × List String) :=')
-    L.append('  ' + _lean_list(sorted(bodies.items()), lambda kv: '(%s, %s)' % (_lean_str(kv[0]), _lean_list(kv[1]))))
+    L.append('/-- normalised kernels: decorators, arguments, guards, loops and writes in order, return value -/')
+    L.append('def kernels : List (String × List String) :=')
+    L.append('  ' + _lean_list(sorted(ns['kernels'].items()), pair))
     L.append('')
-    L.append('/-- public wrappers: name, functions called as `f(X, y, out)` in order -/')
-    L.append('def wrappers : List (String × List String) :=')
-    L.append('  ' + _lean_list(sorted(wrappers.items()), lambda kv: '(%s, %s)' % (_lean_str(kv[0]), _lean_list(kv[1]))))
+    L.append('/-- what each public wrapper does, helper calls resolved: validation predicates, re-bindings, kernel call, return -/')
+    L.append('def wrapperTraces : List (String × List (String × String)) :=')
+    L.append('  ' + _lean_list(sorted(ns['traces'].items()), lambda kv: '(%s, %s)' % (_lean_str(kv[0]), _lean_list(
+        kv[1], lambda e: '(%s, %s)' % (_lean_str(e.split('|', 1)[0] if '|' in e else 'unrecognised'),
+                                       _lean_str(e.split('|', 1)[1] if '|' in e else e))))))
+    L.append('')
+    L.append('/-- C functions declared in `cdef extern` blocks (qualifiers dropped) -/')
+    L.append('def externs : List String := ' + _lean_list(ns['externs']))
     L.append('')
     L.append('/-- `cluster.util._get_distance_method`: metric name, returned function -/')
     L.append('def metricMap : List (String × String) :=')
-    L.append('  ' + _lean_list(sorted(metric.items()), lambda kv: '(%s, %s)' % (_lean_str(kv[0]), _lean_str(kv[1]))))
+    L.append('  ' + _lean_list(sorted(ns['metric'].items()), lambda kv: '(%s, %s)' % (_lean_str(kv[0]), _lean_str(kv[1]))))
+    L.append('')
+    L.append('/-- problems met while reading the source (must be empty) -/')
+    L.append('def notes : List String := ' + _lean_list(notes))
     L.append('')
     L.append('end Ens.Dist.Gen')
     text = '\n'.join(L) + '\n'
@@ -184,9 +701,11 @@ def translate(repo_dir, gen_dir):
     if old != text:          # keep mtime (and lake's cache) when nothing changed
         with open(path, 'w') as f:
             f.write(text)
-    return {'summary': 'libdist.pyx sha256 %s: fused %s; kernels %s; metrics %s' % (
-        sha[:12], {k: len(v) for k, v in fused.items()}, sorted(sigs), metric),
-        'file': 'lean/Model/Generated/FusedTypes.lean', 'source_sha256': sha}
+    unrec = [x for v in list(ns['kernels'].values()) + list(ns['traces'].values()) for x in v
+             if x.startswith('unrecognised')] + notes
+    return {'summary': 'libdist.pyx sha256 %s: fused %s; kernels %s; metrics %s; unrecognised %d' % (
+        sha[:12], {k: len(v) for k, v in ns['fused'].items()}, sorted(ns['kernels']), ns['metric'], len(unrec)),
+        'file': 'lean/Model/Generated/FusedTypes.lean', 'source_sha256': sha, 'unrecognised': unrec[:10]}
 
 
 # ----------------------------------------------------------------------------------------
@@ -569,9 +1088,7 @@ def _run_worker_files(specs, timeout):
     import subprocess
     import sys
     import tempfile
-    base = os.path.join(os.path.dirname(os.path.dirname(os.path.dirname(os.path.abspath(__file__)))), '.cache', 'tmp')
-    os.makedirs(base, exist_ok=True)
-    d = tempfile.mkdtemp(prefix='c13w_', dir=base)   # removed by the caller after it has read the log
+    d = tempfile.mkdtemp(prefix='c13w_')
     pin, pout = os.path.join(d, 'in.jsonl'), os.path.join(d, 'out.jsonl')
     with open(pin, 'w') as f:
         for sp in specs:
@@ -1756,12 +2273,12 @@ def valgrind_run(ctx, specs):
                 sample = sample or blk[-900:]
     except OSError:
         log = ''
-    shutil.rmtree(extra.get('dir', ''), ignore_errors=True)
     ctx.note('valgrind', {'cases': len(specs), 'completed': sum(1 for r in results if r is not None),
                           'libdist_errors': n_err, 'wall_s': round(time.time() - t0, 1),
                           'crash': crash and crash['returncode']})
-    if n_err:
-        sp = specs[0]
+    if n_err and any(v['key'] is None for v in ctx.violations):
+        ctx.tag('valgrind-errors-in-libdist', n_err)      # a failing input is already reported: keep that replay
+    elif n_err:
         ctx.violation('valgrind memcheck reports %d invalid accesses inside libdist: %s' % (n_err, sample),
                       {'valgrind': True, 'n_cases': len(specs)})
 
